@@ -233,6 +233,48 @@ func c35(c *an.Check) {
 				if !guarded {
 					okStrip, why = false, fmt.Sprintf("the prefix stored for stripping at %s is not the one whose HasPrefix(path, prefix) test succeeded", p.Pos(sto.Pos()))
 				}
+				// first match wins (configured order): once recorded inside the scan loop, the scan is left — a later
+				// matching prefix must not overwrite it
+				if loop := an.InnermostLoop(hh, sto.Block()); loop != nil && okStrip {
+					var head *ssa.BasicBlock
+					for b := range loop {
+						all := true
+						for o := range loop {
+							if !b.Dominates(o) {
+								all = false
+							}
+						}
+						if all {
+							head = b
+						}
+					}
+					seen := map[*ssa.BasicBlock]bool{}
+					var reach func(b *ssa.BasicBlock) bool
+					reach = func(b *ssa.BasicBlock) bool {
+						if b == head {
+							return true
+						}
+						if seen[b] || !loop[b] {
+							return false
+						}
+						seen[b] = true
+						for _, n := range b.Succs {
+							if reach(n) {
+								return true
+							}
+						}
+						return false
+					}
+					again := false
+					for _, n := range sto.Block().Succs {
+						if reach(n) {
+							again = true
+						}
+					}
+					if again {
+						okStrip, why = false, fmt.Sprintf("after recording the matched prefix at %s the scan over the configured prefixes continues: a later matching prefix overwrites it (the last match is stripped, not the first)", p.Pos(sto.Pos()))
+					}
+				}
 			}
 			if nStores == 0 {
 				okStrip, why = false, "the matched prefix is never recorded"
